@@ -58,9 +58,9 @@ STAGE_A = {
 
 # (label, constants, number of slices, slices to run (None = all))
 STAGE_B = {
-    "quick": [("N4-P1-V2", consts(N=4, V=2, Mx=3), 256, [0, 1, 2, 3]),
-              ("N5-P1-V1", consts(N=5, V=1, Mx=4, CAs={0, 1}, PAs={1, 2}), 256, [0, 1, 2, 3]),
-              ("N3-P2-V1", consts(N=3, P=2, V=1, Mx=3, CAs={0, 1}, PAs={1}, BetaSel="general", PBs={0, 1}), 128, [0, 1, 2, 3])],
+    "quick": [("N4-P1-V2", consts(N=4, V=2, Mx=3), 256, [0, 1, 2]),
+              ("N5-P1-V1", consts(N=5, V=1, Mx=4, CAs={0, 1}, PAs={1, 2}), 256, [0, 1, 2]),
+              ("N3-P2-V1", consts(N=3, P=2, V=1, Mx=3, CAs={0, 1}, PAs={1}, BetaSel="general", PBs={0, 1}), 128, [0, 1, 2])],
     "thorough": [("N4-P1-V2", consts(N=4, V=2, Mx=3), 64, list(range(16))),
                  ("N5-P1-V1", consts(N=5, V=1, Mx=5, CAs={0, 1, 2}, PAs={1, 2}), 64, list(range(16))),
                  ("N3-P2-V1", consts(N=3, P=2, V=1, Mx=3, CAs={0, 1}, PAs={1}, BetaSel="general", PBs={0, 1}), 64, list(range(16))),
